@@ -1,0 +1,10 @@
+//go:build verif
+
+package parser
+
+// VerifState exposes the cache window of the parser to runtime monitors:
+// the file offset of the first buffered byte, the read cursor inside the
+// buffer and the number of valid buffered bytes.
+func (p *Parser) VerifState() (from int64, pos, used int) {
+	return p.from, p.pos, p.used
+}
